@@ -42,7 +42,10 @@ CHECKS = {
     'C04': dict(
         text="Theorem allow_iff: for every lower-casing function, target and credentials with a list of string roles, role:X "
              "allows iff X after %(key)s substitution equals one of the roles under lower; missing key, no roles entry and "
-             "empty list deny; the check always returns a decision. Correspondence: generated names over ASCII/punctuation/"
+             "empty list deny; the check always returns a decision. ascii_allow_iff: closed form on ASCII names with no lower "
+             "parameter left (position-wise equality up to the case of A-Z), discharged for CPython by the TieLower obligation "
+             "on the interpreter's lower-case table; subst_without_placeholder: X of a placeholder-free check is the text with "
+             "%% read as %, whatever the target. Correspondence: generated names (incl. per-cent signs) over ASCII/punctuation/"
              "non-ASCII one-to-one-case letters, literal and placeholder forms, against the real RoleCheck.",
         note="PARTIAL: Unicode case folding itself is str.lower (parameter of the theorem; table from the running interpreter in the driver).",
         technique="Lean 4 proof (for all `lower`) + differential correspondence",
@@ -100,7 +103,8 @@ CHECKS = {
              "the main file and directory files, each stamped with a fresh larger time) interleaved with plain and forced "
              "loads, the next load of the long-lived enforcer yields exactly the rule store of a brand-new enforcer (which by "
              "C09 is the last definition in layer order). Proved by an inductive invariant with a ghost snapshot of the file "
-             "system at the last load (invariant_initial, invariant_step, next_load_is_compute); vanished main file = empty. "
+             "system at the last load (invariant_initial, invariant_step, next_load_is_compute); vanished main file = empty; "
+             "deleted_main_leaves_no_trace: after any history ending with the main file deleted, however often it came and went. "
              "Correspondence: all short histories + random histories to 40 steps with real files and os.utime against real "
              "long-lived/fresh enforcers; the model's file-operation semantics is compared with observed snapshots.",
         note="os.path.getmtime/listdir/walk and the file parsers are library behaviour; directory creation/removal is outside the alphabet.",
